@@ -125,6 +125,11 @@ def install_activation_tap():
     global _installed
     if _installed:
         return
+    import os
+    if os.environ.get("VERIF_NO_ACT_TAP"):
+        # self-test switch: behave as if the engine's recursion were invisible to the class-level wrapper
+        _installed = True
+        return
     from multidecoder.multidecoder import DEFAULT_DEPTH_LIMIT, Multidecoder
 
     orig = Multidecoder.scan_node
